@@ -107,6 +107,32 @@ fn check_catalog_rows(
     Ok(())
 }
 
+/// Returns the string in a cell of one of the catalog tables, or an error if
+/// the (malformed) cell doesn't hold a string.
+fn cell_str<'a>(value: &'a Value, table_name: &str) -> io::Result<&'a str> {
+    match value.as_str() {
+        Some(string) => Ok(string),
+        None => invalid_data!(
+            "Malformed {:?} table: expected a string, but found {}",
+            table_name,
+            value
+        ),
+    }
+}
+
+/// Returns the integer in a cell of one of the catalog tables, or an error if
+/// the (malformed) cell doesn't hold an integer.
+fn cell_int(value: &Value, table_name: &str) -> io::Result<i32> {
+    match value.as_int() {
+        Some(number) => Ok(number),
+        None => invalid_data!(
+            "Malformed {:?} table: expected an integer, but found {}",
+            table_name,
+            value
+        ),
+    }
+}
+
 fn is_reserved_table_name(table_name: &str) -> bool {
     table_name == COLUMNS_TABLE_NAME
         || table_name == TABLES_TABLE_NAME
@@ -331,7 +357,8 @@ impl<F: Read + Seek> Package<F> {
                     table.read_rows(stream)?,
                 );
                 for row in rows {
-                    let table_name = row[0].as_str().unwrap().to_string();
+                    let table_name =
+                        cell_str(&row[0], TABLES_TABLE_NAME)?.to_string();
                     if names.contains(&table_name) {
                         invalid_data!(
                             "Repeated key in {:?} table: {:?}",
@@ -362,9 +389,9 @@ impl<F: Read + Seek> Package<F> {
                     table.read_rows(stream)?,
                 );
                 for row in rows {
-                    let table_name = row[0].as_str().unwrap();
+                    let table_name = cell_str(&row[0], COLUMNS_TABLE_NAME)?;
                     if let Some(cols) = columns_map.get_mut(table_name) {
-                        let col_index = row[1].as_int().unwrap();
+                        let col_index = cell_int(&row[1], COLUMNS_TABLE_NAME)?;
                         if cols.contains_key(&col_index) {
                             invalid_data!(
                                 "Repeated key in {:?} table: {:?}",
@@ -372,8 +399,9 @@ impl<F: Read + Seek> Package<F> {
                                 (table_name, col_index)
                             );
                         }
-                        let col_name = row[2].as_str().unwrap().to_string();
-                        let type_bits = row[3].as_int().unwrap();
+                        let col_name =
+                            cell_str(&row[2], COLUMNS_TABLE_NAME)?.to_string();
+                        let type_bits = cell_int(&row[3], COLUMNS_TABLE_NAME)?;
                         cols.insert(col_index, (col_name, type_bits));
                     } else {
                         invalid_data!(
@@ -397,16 +425,16 @@ impl<F: Read + Seek> Package<F> {
             if comp.exists(&stream_name) {
                 let stream = comp.open_stream(&stream_name)?;
                 for value_refs in table.read_rows(stream)?.into_iter() {
-                    let table_name = value_refs[0]
-                        .to_value(&string_pool)
-                        .as_str()
-                        .unwrap()
-                        .to_string();
-                    let column_name = value_refs[1]
-                        .to_value(&string_pool)
-                        .as_str()
-                        .unwrap()
-                        .to_string();
+                    let table_name = cell_str(
+                        &value_refs[0].to_value(&string_pool),
+                        VALIDATION_TABLE_NAME,
+                    )?
+                    .to_string();
+                    let column_name = cell_str(
+                        &value_refs[1].to_value(&string_pool),
+                        VALIDATION_TABLE_NAME,
+                    )?
+                    .to_string();
                     let key = (table_name, column_name);
                     if validation_map.contains_key(&key) {
                         invalid_data!(
@@ -439,7 +467,7 @@ impl<F: Read + Seek> Package<F> {
                 let key = (table_name.clone(), column_name);
                 if let Some(value_refs) = validation_map.get(&key) {
                     let is_nullable = value_refs[2].to_value(&string_pool);
-                    if is_nullable.as_str().unwrap() == "Y" {
+                    if is_nullable.as_str() == Some("Y") {
                         builder = builder.nullable();
                     }
                     let min_value = value_refs[3].to_value(&string_pool);
